@@ -92,6 +92,29 @@ def close(a, b, rtol=1e-9, atol=1e-12) -> bool:
     return abs(a - b) <= atol + rtol * max(abs(a), abs(b))
 
 
+def ref_atol(scale=0.0) -> float:
+    """absolute tolerance of every value comparison of the oracles: 1e-12 x (1 + largest operand magnitude).  `scale` is the
+    largest operand the reference met in an addition / subtraction / Mod / trigonometric function (RefModel.last_maxabs),
+    or the magnitude of the compared quantities when two generated modules are compared with each other"""
+    scale = float(scale)
+    if not math.isfinite(scale):
+        scale = 0.0
+    return 1e-12 * (1.0 + abs(scale))
+
+
+def vclose(got, want, scale=0.0, rtol=1e-9) -> bool:
+    """relative tolerance rtol plus the absolute tolerance ref_atol(max(scale, |got|, |want|)); NaN never matches"""
+    got, want = float(got), float(want)
+    if math.isnan(got) or math.isnan(want):
+        return False
+    if got == want:
+        return True
+    m = max(abs(got), abs(want))
+    if not math.isfinite(m):
+        return False
+    return abs(got - want) <= ref_atol(max(abs(float(scale)), m)) + rtol * m
+
+
 def all_close(a, b, rtol=1e-9, atol=1e-12) -> bool:
     a, b = np.asarray(a, dtype=float), np.asarray(b, dtype=float)
     if a.shape != b.shape:
